@@ -170,7 +170,7 @@ func (i *Iso) roundTrip(w *isoWorker, payload []byte, limit time.Duration) (isoR
 	}
 }
 
-var deathFrameRe = regexp.MustCompile(`(?m)^(github\.com/jsightapi/[^\s]+?)\(`)
+var deathFrameRe = regexp.MustCompile(`(?m)^(github\.com/jsightapi/[^\n]+)\([^\n]*$`)
 
 func deathSig(stderr string, state string) string {
 	cls := "unknown"
